@@ -10,9 +10,9 @@ Local Open Scope N_scope.
 
 (** One step.  For every capacity 1 <= L < 2^64-1, every pair of well-formed
     objects (L+1 bytes, length <= L, terminator at the length), every one of the
-    89 modelled entry points (all mutators: constructors, assign, the insert /
-    erase / push_back / pop_back / append / sprintf / replace families, swap,
-    clear; all observers: compare, starts_with / ends_with / contains, substr,
+    90 modelled entry points (all mutators: constructors, assign, the insert /
+    erase / push_back / pop_back / append / sprintf / replace families - sprintf
+    also with a vsnprintf call that fails after partial output -, swap, clear; all observers: compare, starts_with / ends_with / contains, substr,
     copy, at / front / back / length / empty / str, == and !=, iteration in both
     directions, single steps ++ / -- / += / -= of the iterator and reverse
     iterator classes followed by operator*, the 30 overloads of the find family)
